@@ -61,7 +61,7 @@ func load() {
 		return
 	}
 	for _, e := range r.Schedule {
-		if k := e & 7; k == 1 || k == 2 { // atomic operation or Gosched
+		if k := e & 7; k == 1 || k == 2 || k == 3 { // atomic operation, Gosched, mutex operation
 			sched = append(sched, e>>3)
 		}
 	}
